@@ -185,3 +185,116 @@ Proof.
   intros Tb T j HTb Hj. apply (chunk_count_spec Tb T j HTb) in Hj. unfold chunk_window. cbn [fst snd].
   repeat split; try lia. intro H. apply (chunk_count_spec Tb T (S j) HTb) in H. lia.
 Qed.
+
+(** * The scopes [doc_block] gives to constraints *)
+
+(** the constraints of a combined block [b], each now scoped to the repetitions of [b] *)
+Definition inherit (b : blockdoc) (off : nat) : list (pcons * scope) :=
+  map (fun csc => (fst csc, ScRep (snd csc) (b_T b) (b_P b) off)) (b_constraints b).
+
+(** the constraints of the outer block of a Nest: scaled by the inner trial count [n] *)
+Definition inherit_scaled (outer : blockdoc) (n : nat) : list (pcons * scope) :=
+  map (fun csc => (fst csc, ScRep (ScScaled (snd csc) n) (b_T outer * n) 0 0)) (b_constraints outer).
+
+Definition maxp_of (bd : blockdoc) : nat := list_max (map (fun c => x_P c * x_su c) (b_crossings bd)).
+
+Lemma merge_constraints : forall inners cs mode al nest bd,
+  merge inners cs mode al nest = Ok bd ->
+  b_constraints bd
+  = flat_map (fun b => inherit b (match al with PostPreamble => maxp_of bd - b_P b | _ => 0 end)) inners
+    ++ own_constraints cs.
+Proof.
+  intros inners cs mode al nest bd H. unfold merge in H. destruct (_ && _); [discriminate|].
+  inv_bind H as bd0 Hf H. inversion H; subst; cbn. reflexivity.
+Qed.
+
+Lemma maxp_geom : forall cs cs', map geom cs = map geom cs' ->
+  list_max (map (fun c => x_P c * x_su c) cs) = list_max (map (fun c => x_P c * x_su c) cs').
+Proof.
+  intros cs cs' H. f_equal. exact (map_geom_f (fun t => fst (fst t) * snd t) cs cs' H).
+Qed.
+
+(** one combined block, alignments checked: the repetitions start at trial 0 *)
+Lemma merge_one_constraints : forall inner cs mode al bd, fin inner ->
+  merge [inner] cs mode al false = Ok bd ->
+  b_constraints bd = inherit inner 0 ++ own_constraints cs.
+Proof.
+  intros inner cs mode al bd Hfin H.
+  rewrite (merge_constraints _ _ _ _ _ _ H). cbn [flat_map]. rewrite app_nil_r. f_equal.
+  assert (Hal : alignment_eqb (b_alignment inner) al = true).
+  { unfold merge in H. cbn [forallb negb andb] in H. destruct (alignment_eqb (b_alignment inner) al); [reflexivity|].
+    cbn in H. discriminate. }
+  destruct al; try reflexivity.
+  destruct (b_alignment inner) eqn:Ea; try discriminate.
+  pose proof (merge_crossings _ _ _ _ _ _ H) as G. cbn [flat_map] in G. rewrite app_nil_r in G.
+  unfold maxp_of. rewrite (maxp_geom _ _ G). rewrite (fin_P _ Hfin), Ea. unfold block_P. rewrite Nat.sub_diag. reflexivity.
+Qed.
+
+Theorem repeat_constraints : forall p b cs inner bd,
+  doc_block p b = Ok inner -> doc_block p (PRepeat b cs) = Ok bd ->
+  b_constraints bd = inherit inner 0 ++ own_constraints cs.
+Proof.
+  intros p b cs inner bd Hb H. cbn [doc_block] in H. rewrite Hb in H. cbn [bind] in H.
+  eapply merge_one_constraints; [eapply doc_block_fin; eauto|exact H].
+Qed.
+
+Theorem merge1_constraints : forall p b cs mode al inner bd,
+  doc_block p b = Ok inner -> doc_block p (PMerge [b] cs mode al) = Ok bd ->
+  b_constraints bd = inherit inner 0 ++ own_constraints cs.
+Proof.
+  intros p b cs mode al inner bd Hb H. cbn [doc_block] in H. rewrite Hb in H. cbn [bind] in H.
+  inv_bind H as al' Hal H.
+  eapply merge_one_constraints; [eapply doc_block_fin; eauto|exact H].
+Qed.
+
+Lemma maxp_zero : forall cs, Forall (fun c => x_P c = 0) cs -> list_max (map (fun c => x_P c * x_su c) cs) = 0.
+Proof.
+  intros cs H. unfold list_max. induction H as [|c cs Hc _ IH]; [reflexivity|]. cbn [map fold_right]. rewrite Hc, IH. reflexivity.
+Qed.
+
+(** Nest (which refuses preambles): the outer constraints are scaled by the inner trial count and
+    scoped to the repetitions of the scaled outer block, the inner constraints to the repetitions of
+    the inner block, both starting at trial 0 *)
+Theorem nest_constraints : forall p o i cs al outer inner bd,
+  doc_block p o = Ok outer -> doc_block p i = Ok inner -> doc_block p (PNest o i cs al) = Ok bd ->
+  b_P outer = 0 /\ b_P inner = 0 /\
+  b_constraints bd = inherit_scaled outer (b_T inner) ++ inherit inner 0 ++ own_constraints cs.
+Proof.
+  intros p o i cs al outer inner bd Ho Hi H. cbn [doc_block] in H. rewrite Ho, Hi in H. cbn [bind] in H.
+  destruct (existsb _ _) eqn:E; [discriminate|].
+  assert (Z : Forall (fun c => x_P c = 0) (b_crossings outer ++ b_crossings inner)).
+  { apply Forall_forall. intros c Hc. destruct (x_P c =? 0) eqn:Q; [apply Nat.eqb_eq; exact Q|]. exfalso.
+    assert (existsb (fun c => negb (x_P c =? 0)) (b_crossings outer ++ b_crossings inner) = true).
+    { apply existsb_exists. exists c. split; [exact Hc|rewrite Q; reflexivity]. }
+    congruence. }
+  apply Forall_app in Z. destruct Z as [Zo Zi].
+  assert (Po : b_P outer = 0) by (rewrite (fin_P _ (doc_block_fin _ _ _ Ho)); apply block_P_zero; exact Zo).
+  assert (Pi : b_P inner = 0) by (rewrite (fin_P _ (doc_block_fin _ _ _ Hi)); apply block_P_zero; exact Zi).
+  split; [exact Po|]. split; [exact Pi|].
+  rewrite (merge_constraints _ _ _ _ _ _ H). cbn [flat_map]. rewrite app_nil_r, <- app_assoc.
+  assert (M : maxp_of bd = 0).
+  { pose proof (merge_crossings _ _ _ _ _ _ H) as G. unfold maxp_of. rewrite (maxp_geom _ _ G).
+    apply maxp_zero. cbn [flat_map]. rewrite app_nil_r. apply Forall_app. split; [|exact Zi].
+    cbn [scale_outer b_crossings]. apply Forall_forall. intros c Hc. apply in_map_iff in Hc. destruct Hc as [c0 [<- Hc0]].
+    cbn. rewrite Forall_forall in Zo. apply Zo. exact Hc0. }
+  rewrite M, Pi, Nat.sub_0_r. cbn [Nat.sub].
+  assert (O0 : forall a : alignment, match a with PostPreamble => 0 | _ => 0 end = 0) by (intros []; reflexivity).
+  f_equal; [|f_equal].
+  - unfold inherit, inherit_scaled. cbn [scale_outer b_constraints b_T b_P]. rewrite map_map. apply map_ext. intro csc.
+    cbn [fst snd]. rewrite Po. cbn [Nat.mul]. rewrite O0. reflexivity.
+  - rewrite O0. reflexivity.
+Qed.
+
+(** the constraints of a CrossBlock / MultiCrossBlock have the block itself as scope *)
+Theorem cross_scopes_none : forall p b bd,
+  match b with PCross _ _ _ _ | PMulti _ _ _ _ _ _ => True | _ => False end ->
+  doc_block p b = Ok bd -> Forall (fun csc : pcons * scope => snd csc = ScNone) (b_constraints bd).
+Proof.
+  intros p b bd Hb H.
+  assert (G : forall d crs cs rcc mode al, doc_cross p d crs cs rcc mode al = Ok bd ->
+              Forall (fun csc : pcons * scope => snd csc = ScNone) (b_constraints bd)).
+  { intros d crs cs rcc mode al X. unfold doc_cross in X. inv_bind X as kinds Hk X. inv_bind X as xs Hxs X.
+    inv_bind X as bd0 Hf X. inversion X; subst; cbn. unfold own_constraints. apply Forall_forall. intros x Hx.
+    apply in_map_iff in Hx. destruct Hx as [c [<- _]]. reflexivity. }
+  destruct b; try contradiction; cbn [doc_block] in H; eapply G; eauto.
+Qed.
